@@ -153,7 +153,8 @@ var etagVals = vs("empty", "", "star", "*", "quoted-garbage", "\"garbage\"", "un
 	"list", "\"a\", \"b\"", "lone-quote", "\"", "long", strings.Repeat("e", 3000), "blank", " ")
 
 var attrVals = vs("empty", "", "etag", "ETag", "all", "ETag,Checksum,ObjectParts,StorageClass,ObjectSize", "garbage", "garbage", "lower", "etag", "comma", ",", "dup", "ETag,ETag", "blank", " ",
-	"trailing-comma", "ETag,", "parts-only", "ObjectParts", "long", strings.Repeat("ETag,", 600), "spaces", "ETag, ObjectSize")
+	"trailing-comma", "ETag,", "parts-only", "ObjectParts", "long", strings.Repeat("ETag,", 600), "spaces", "ETag, ObjectSize",
+	"empty-element", "ETag,,ObjectSize", "leading-comma", ",ETag", "blank-element", "ETag, ,ObjectSize", "commas-only", ",,,", "tab-element", "ETag,\t,ObjectSize", "semicolon-list", "ETag;ObjectSize")
 
 // sizes for "oversized" values of any header / query parameter
 var oversize = []int{1000, 3000, 4000, 5000, 8192, 65536}
